@@ -1101,8 +1101,26 @@ class Analysis:
             old = st.ptr.get(p)
             if old is not None:
                 st.ptr[p] = (old[0], self.new_sym(st, p + ".off", havoc=True))
+        # what is known about the length of a string survives a loop that neither stores into that buffer nor hands it
+        # (or a pointer into it) to a call
+        touched = set(bufw)
+        for bid in self.loops[head.id]:
+            for e in self.fn.blocks[bid].elems:
+                t = C.store_target(e)
+                if t is not None and t.k in ("ArraySubscriptExpr", "UnaryOperator"):
+                    b0 = t.child(0).strip_all_casts().get("path") if t.ch else None
+                    if b0:
+                        touched.add(b0)
+                        pv = st.ptr.get(b0)
+                        if pv:
+                            touched.add(pv[0])
+        for p_ in list(touched):
+            pv = st.ptr.get(p_)
+            if pv:
+                touched.add(pv[0])
         for k in list(st.slen):
-            st.slen.pop(k)
+            if k in touched or not isinstance(k, str):
+                st.slen.pop(k)
         for inv in self.invariants.get(head.id, []):
             st.cons.append(inv.subst({v: st.env[v] for v in inv.syms() if v in st.env}))
         # forget cached expression values
